@@ -816,13 +816,13 @@ impl<'g, 's> LRTable<'g, 's> {
                                     // production associativity
                                     match (&prod.assoc, &follow_term.assoc) {
                                         (Associativity::Left, Associativity::None)
-                                        | (_, Associativity::Right) => {
+                                        | (_, Associativity::Left) => {
                                             // Override SHIFT with this REDUCE
                                             assert!(actions.len() == 1);
                                             actions.pop();
                                         }
                                         (Associativity::Right, Associativity::None)
-                                        | (_, Associativity::Left) => {
+                                        | (_, Associativity::Right) => {
                                             // If associativity is right leave SHIFT
                                             // action as "stronger" and don't consider
                                             // this reduction any more. Right
